@@ -107,6 +107,8 @@ def classify_exception(exc):
     origin, fr = _innermost_origin(exc.__traceback__)
     where = f"{os.path.basename(fr.filename)}:{fr.name}" if fr else "?"
     text = f"{type(exc).__name__}: {str(exc)[:300]}"
+    if isinstance(exc, MemoryError):
+        return "violation", "crash:MemoryError", text
     if isinstance(exc, RecursionError):
         return "violation", f"crash:RecursionError@{where}", text
     if origin == "verif":
